@@ -19,9 +19,9 @@ def bind_cfg(dev="DevNone", maxops=6):
                                         "Deviations": f"<- {dev}"}, properties=("NoCrossTalk",), view="View")
 
 
-def run_cfg(maxcmds, dev="DevNone"):
+def run_cfg(maxcmds, dev="DevNone", forms="FormsQ"):
     return dict(spec="Spec", constants={"CmdPool": "<- Pool", "Files": "<- F2", "Requested": "<- F2", "MaxCmds": maxcmds,
-                                        "Deviations": f"<- {dev}"}, invariants=RUN_INV, view="View")
+                                        "Forms": f"<- {forms}", "Deviations": f"<- {dev}"}, invariants=RUN_INV, view="View")
 
 
 def norm_bind(e):
@@ -62,7 +62,7 @@ def run(tier, seed, replay_path):
     rep.note(f"part 1: {stats}")
     # ---- part 2
     maxc = 3 if tier == "quick" else 4
-    rc = run_cfg(maxc)
+    rc = run_cfg(maxc, forms="FormsQ" if tier == "quick" else "FormsAll")
     model_check(ev, "MCJobRun", rc, role=f"JobRun: command lists up to {maxc}", tag="c17r",
                 require_actions=("Choose", "Materialise", "Exec", "LoopDone", "Collect"))
     for dev in ("DevContinue", "DevExitF", "DevExitM", "DevKeep"):
